@@ -124,6 +124,7 @@ Spec == Init /\ [][Judge \/ Report]_<<tid, verdict>>
 (***************************************************************************)
 GenNames == {"fa", "fa.b", "faend", "b"}
 GenLen == 4
+GenLen5 == 5
 GenLines ==
   {[lab |-> n, toks |-> <<>>, tgt |-> ""] : n \in GenNames}
   \cup {[lab |-> "", toks |-> <<"j", n>>, tgt |-> n] : n \in GenNames}
